@@ -13,9 +13,9 @@ CHECKS = {
  "C02": ("analytic reference-model monitor wrapped around Verify / PopVerify: with the secret key known, True iff the 96 bytes equal the model's canonical signature; driven with 18 candidate classes per base case (other key/message/suite, PoP<->signature, AUG prefix, -S, 2S, S+torsion, identity, bit/flag flips, swaps, lengths)",
          "4.C02", "the oracle recomputes the truth for every candidate with independent arithmetic, so any accepted non-canonical string or rejected canonical one is seen; reach of decode / subgroup / pairing stages is counted"),
  "C03": ("reference-model monitors wrapped around Aggregate / AggregateVerify / FastAggregateVerify: group-sum oracle with known secret keys and explicit preconditions, over signer sets with every single-element perturbation, permutations and bracketings",
-         "4.C03", "expected answers are recomputed in the model for whatever the perturbation produced, so no perturbation can false-alarm; Aggregate outputs are compared byte-for-byte and across orders/groupings"),
+         "4.C03", "expected answers are recomputed in the model for whatever the perturbation produced, so no perturbation can false-alarm; Aggregate outputs are compared byte-for-byte, across orders/groupings and with repeated / cancelling entries; perturbations include an identity key paired with an unsigned message and a signer key moved out of the subgroup by a small-order point"),
  "C04": ("totality contract (bool, no exception) and validity oracle on the five verification entry points under hostile byte strings, plus a pairing-argument monitor wrapped around `pairing` as called by the ciphersuites (every argument pair checked on-curve / in-subgroup / non-identity in model arithmetic)",
-         "4.C04", "grid of lengths, flag combinations, coordinate classes, cofactor-order components and list positions; the argument monitor sees a dropped subgroup check even when the returned boolean stays False"),
+         "4.C04", "grid of lengths, flag combinations, coordinate classes (incl. non-reduced x + p), cofactor-order components, list positions and list shapes; key sets whose cofactor components cancel, valid keys moved out of the subgroup with the honest signature, identity keys among honest signers; the argument monitor sees a dropped subgroup check even when the returned boolean stays False"),
  "C09": ("reference-model monitors wrapped around SkToPk / Sign / PopProve / Aggregate comparing output bytes with an independent end-to-end IETF pipeline model (XMD, hash_to_field, straight-line SSWU, isogeny, h_eff, affine scalar multiplication, ZCash encoding), anchored by published vectors",
          "4.C09", "every output observed is compared byte-for-byte with the model for keys of every bit length, boundary keys and block-boundary messages in the three suites"),
  "C10": ("stage-by-stage reference-model monitors on hash_to_field, optimized_swu_G1/G2, iso_map_G1/G2, map_to_curve, clear_cofactor, hash_to_G1/G2 (RFC 9380 straight-line SSWU with inv0, rational isogeny maps, [h_eff]P, subgroup membership), with all eight outcomes of the G2 square-root search and the exceptional inputs required",
@@ -45,9 +45,9 @@ CHECKS = {
  "C18": ("reference-model monitors on secp256k1 add/multiply/privtopub/jacobian_* (affine model, OpenSSL second oracle) plus exhaustive substitution of the module constants by small prime-order curves",
          "4.C18", "real-curve cases incl. negative and >N scalars, identity operands, P=Q, P=-Q; every ordered pair and scalar on small curves enumerated through the unchanged functions"),
  "C19": ("reference-model monitor on ecdsa_raw_recover over the hostile (v, r, s, hash) grid incl. r=N, r in [N,P), s multiples of N, identity result; refusals must be ValueError",
-         "4.C19", "every recover execution compared with an independent lift-and-solve model; returned keys re-verified by the ECDSA equation in the model"),
+         "4.C19", "every recover execution compared with an independent lift-and-solve model; returned keys re-verified by the ECDSA equation in the model; plus the whole (v, r, s, z) space on small prime-order curves (module constants rebound, P = 3 mod 4), which makes r in [N, P), r or s = 0 mod N and the identity result ordinary cases"),
  "C20": ("purity monitor at the call boundary (value digests of every argument and of a registry of all module constants before/after each call) plus an offline history checker over recorded event logs of many interleavings in 16 fresh interpreters with varied PYTHONHASHSEED: same (operation, arguments) => same result digest; registry digest constant",
-         "4.C20", "about 700 distinct (operation, arguments) pairs over all modules, each observed at several positions of several histories; ad-hoc field classes are created mid-history; any in-place change of generators, tables, tags or arguments changes a digest"),
+         "4.C20", "about 700 distinct (operation, arguments) pairs over all modules, each observed at several positions of several histories; ad-hoc field classes are created mid-history, persistent element objects are shared by several operations of a history, operations that are refused half-way are included; any in-place change of public generators, tables, tags or arguments changes a digest; private / lazily initialised module state is not treated as a constant, a wrong cache shows as a history-dependent result"),
 }
 
 PENDING = {
